@@ -164,6 +164,28 @@ theorem parseBlocklists_block {Net Pat : Type} (cidr : String → Outcome Net) (
           unfold publicExtra
           cases raw.publicAddrs <;> cases ifaces <;> simp
 
+/-! ## reload sequences -/
+
+/-- after any sequence of reloads in which no configuration load panics, every part is exactly the version
+its last successful load produced -/
+theorem reloads_eq_last {Sel Pol Geo : Type} (evs : List (Outcome Pol × Option Sel × GeoLoad Geo))
+    (st : Station Sel Pol Geo) (hnp : ∀ ev ∈ evs, ev.1 ≠ .panic) :
+    reloads st evs = .ok ⟨lastSelector st.selector evs, lastPolicy st.policy evs, lastGeoip st.geoip evs⟩ := by
+  induction evs generalizing st with
+  | nil => rfl
+  | cons ev rest ih =>
+    obtain ⟨c, s, g⟩ := ev
+    have hrest : ∀ ev ∈ rest, ev.1 ≠ .panic := fun ev hev => hnp ev (List.mem_cons_of_mem _ hev)
+    cases c with
+    | panic => exact absurd rfl (hnp (.panic, s, g) (List.mem_cons_self ..))
+    | err =>
+      simp only [reloads, reload, lastSelector, lastPolicy, lastGeoip]
+      exact ih st hrest
+    | ok pol =>
+      simp only [reloads, reload]
+      rw [ih _ hrest]
+      cases s <;> cases g <;> simp [onReload, lastSelector, lastPolicy, lastGeoip, GeoLoad.loaded]
+
 /-! ## the nil tests of the statistics printer -/
 
 /-- the two optional cache fields the model knows -/
